@@ -195,10 +195,6 @@ func emit(w io.Writer, name string, evs []ev) {
 	fmt.Fprintf(w, "Definition %s : list (string * string) :=\n  [%s]%%string.\n", name, strings.Join(parts, ";\n   "))
 }
 
-// readerMethods are the Reader-interface methods of LazyBinaryReader that
-// delegate to the loaded BinaryReader.
-var readerMethods = []string{"IndexVersion", "PostingsOffsets", "PostingsOffset", "LookupSymbol", "LabelValues", "LabelNames"}
-
 func facts(repo string, w io.Writer) error {
 	s, err := common.ParseSrc(repo, "pkg/block/indexheader/lazy_binary_reader.go")
 	if err != nil {
@@ -255,6 +251,35 @@ func facts(repo string, w io.Writer) error {
 		ms = append(ms, fmt.Sprintf("(%s, ev_method_%s)", common.CoqString(n), n))
 	}
 	fmt.Fprintf(w, "Definition ev_methods : list (string * list (string * string)) :=\n  [%s]%%string.\n", strings.Join(ms, ";\n   "))
+
+	// which of the delegated BinaryReader methods hand out zero-copy strings
+	// (direct use of yoloString / package unsafe in the method body)
+	b, err := common.ParseSrc(repo, "pkg/block/indexheader/binary_reader.go")
+	if err != nil {
+		return err
+	}
+	var yolo []string
+	for _, n := range names {
+		fd, err := b.FindFunc("BinaryReader." + n)
+		if err != nil {
+			return err
+		}
+		uses := false
+		ast.Inspect(fd.Body, func(x ast.Node) bool {
+			switch y := x.(type) {
+			case *ast.Ident:
+				if y.Name == "yoloString" || y.Name == "unsafe" {
+					uses = true
+				}
+			}
+			return true
+		})
+		if uses {
+			yolo = append(yolo, common.CoqString(n))
+		}
+	}
+	fmt.Fprintln(w, "(* pkg/block/indexheader/binary_reader.go: delegated methods whose body uses yoloString / unsafe *)")
+	fmt.Fprintf(w, "Definition yolo_methods : list string := [%s]%%string.\n", strings.Join(yolo, "; "))
 
 	p, err := common.ParseSrc(repo, "pkg/block/indexheader/reader_pool.go")
 	if err != nil {
